@@ -87,6 +87,8 @@ func (a *AuthIp) watchYml() error {
 					switch {
 					case ev.Op&fsnotify.Write == fsnotify.Write:
 						fallthrough
+					case ev.Op&fsnotify.Create == fsnotify.Create: // rewrite by rename onto the watched name
+						fallthrough
 					case ev.Op&fsnotify.Rename == fsnotify.Rename:
 						if err := a.parseAuthIp(); err != nil {
 							logging.Errorf("parser auth ip err: %s", err)
@@ -112,16 +114,25 @@ func (a *AuthIp) parseAuthIp() error {
 		return errors.Wrapf(err, "failed to unmarshal config from %s", a.name)
 	}
 
-	IpMap.enable = auth.Enable
-
-	if !IpMap.enable {
-		return nil
+	// the admitted set is exactly the list in the file: drop what is no longer listed
+	wanted := make(map[string]struct{}, len(auth.IpList))
+	for _, ip := range auth.IpList {
+		wanted[ip] = struct{}{}
 	}
-
+	for kv := range IpMap.Iter() {
+		if ip, ok := kv.Key.(string); ok {
+			if _, keep := wanted[ip]; !keep {
+				IpMap.Del(ip)
+				logging.Debugf("del ip %s", ip)
+			}
+		}
+	}
 	for _, ip := range auth.IpList {
 		if !IpMap.Insert(ip, struct{}{}) {
 			logging.Debugf("set ip %s", ip)
 		}
 	}
+
+	IpMap.enable = auth.Enable
 	return nil
 }
